@@ -645,6 +645,104 @@ fn forms_neg(int: Option<i64>, fl: Option<&(String, String)>) -> FormGroup {
     }
 }
 
+/// chains `v op1 A op2 B [op3 C]` with a non-literal head and literal tail (adjacent `*Imm` instructions
+/// after optimization): a reassociating rewrite changes float rounding and which int operation overflows.
+fn chain_tail(float: bool) -> &'static str {
+    if float {
+        "println(r@ < 0.0)\nprintln(r@ > 0.0)\nprintln(r@ == 0.0)\nprintln(1.0 / (r@ + r@ * r@ * 0.0 + 1.0) < 0.0)\n"
+    } else {
+        ""
+    }
+}
+
+fn forms_chain(float: bool, v: &str, lits: &[String], ops: &[&str], tag: &str) -> Vec<FormGroup> {
+    let tail = chain_tail(float);
+    let ty = if float { "float" } else { "int" };
+    // expression `head op lit op lit ...` with literals / with variables
+    let mut e_lit = String::from("v@");
+    let mut e_var = String::from("v@");
+    let mut decl = String::new();
+    for (k, (l, op)) in lits.iter().zip(ops).enumerate() {
+        e_lit.push_str(&format!(" {op} {l}"));
+        e_var.push_str(&format!(" {op} c{k}_@"));
+        decl.push_str(&format!("let c{k}_@ = {l}\n"));
+    }
+    let what = format!("{ty} chain{tag} {v} {}", lits.iter().zip(ops).map(|(l, o)| format!("{o} {l}")).collect::<Vec<_>>().join(" "));
+    let mut out = vec![FormGroup {
+        what: what.clone(),
+        forms: vec![
+            ("vvv", format!("let v@ = {v}\n{decl}let r@ = {e_var}\nprintln(r@)\n{tail}")),
+            ("vll", format!("let v@ = {v}\nlet r@ = {e_lit}\nprintln(r@)\n{tail}")),
+            ("vll-arg", format!("let v@ = {v}\nprintln({e_lit})\nlet r@ = {e_lit}\n{tail}")),
+            ("vll-fn", format!("fn ch@(v@: {ty}) -> {ty} {{\n  {e_lit}\n}}\nlet r@ = ch@({v})\nprintln(r@)\n{tail}")),
+        ],
+    }];
+    // compound assignment `x op1= A op2 B` (right operand is itself a literal chain)
+    if lits.len() == 2 && ops[0] != "%" {
+        let (a, b) = (&lits[0], &lits[1]);
+        out.push(FormGroup {
+            what: format!("{ty} chain-compound {v} {}= {a} {} {b}", ops[0], ops[1]),
+            forms: vec![
+                ("cvv", format!("var r@ = {v}\nlet a@ = {a}\nlet b@ = {b}\nr@ {}= a@ {} b@\nprintln(r@)\n{tail}", ops[0], ops[1])),
+                ("cll", format!("var r@ = {v}\nr@ {}= {a} {} {b}\nprintln(r@)\n{tail}", ops[0], ops[1])),
+                ("cvl", format!("var r@ = {v}\nlet a@ = {a}\nr@ {}= a@ {} {b}\nprintln(r@)\n{tail}", ops[0], ops[1])),
+            ],
+        });
+    }
+    out
+}
+
+/// one program holding every operator pair of a triple in literal form (for the exact optimize tie)
+fn chain_bundle(_float: bool, v: &str, a: &str, b: &str, ops: &[&str]) -> String {
+    let mut s = format!("let v = {v}\nvar x = {v}\n");
+    for o1 in ops {
+        for o2 in ops {
+            s.push_str(&format!("println(v {o1} {a} {o2} {b})\n"));
+            s.push_str(&format!("let r_{}_{} = v {o1} {a} {o2} {b} {o1} {a}\n", opname(o1), opname(o2)));
+            if *o1 != "%" {
+                s.push_str(&format!("x {o1}= {a} {o2} {b}\n"));
+            }
+        }
+    }
+    s.push_str("println(x)\n");
+    s
+}
+
+fn opname(o: &str) -> &'static str {
+    match o {
+        "+" => "add",
+        "-" => "sub",
+        "*" => "mul",
+        "/" => "div",
+        "%" => "mod",
+        _ => "pow",
+    }
+}
+
+fn chain_triples(rng: &mut Rng, quick: bool) -> (Vec<(String, String, String)>, Vec<(String, String, String)>) {
+    let il = |n: i64| int_lit(n);
+    let mut ints: Vec<(String, String, String)> = vec![
+        (il(i64::MAX), il(1), il(-1)), (il(i64::MAX), il(1), il(1)), (il(i64::MIN), il(-1), il(1)), (il(i64::MAX - 1), il(1), il(1)),
+        (il(i64::MAX), il(2), il(2)), (il(4611686018427387904), il(2), il(2)), (il(7), il(2), il(3)), (il(-7), il(2), il(2)),
+        (il(3037000500), il(3037000500), il(2)), (il(i64::MIN), il(2), il(-1)), (il(10), il(0), il(5)), (il(i64::MIN + 1), il(-1), il(-1)),
+    ];
+    let fl = |x: f64| float_lit(x);
+    let mut floats: Vec<(String, String, String)> = vec![
+        (fl(9007199254740992.0), fl(1.0), fl(1.0)), (fl(1.0), fl(6e-17), fl(6e-17)), (fl(f64::MAX), fl(f64::MAX), fl(f64::MAX)),
+        (fl(1e308), fl(10.0), fl(10.0)), (fl(0.1), fl(0.2), fl(0.3)), (fl(-0.0), fl(0.0), fl(-0.0)), (fl(0.0), fl(-0.0), fl(0.0)),
+        (fl(5e-324), fl(2.0), fl(2.0)), (fl(1e-300), fl(1e-300), fl(1e300)), (fl(-9007199254740992.0), fl(-1.0), fl(-1.0)),
+        (fl(3.0), fl(0.0), fl(1.5)), (fl(1.0), fl(1e16), fl(-1e16)),
+    ];
+    let n = if quick { 6 } else { 80 };
+    let ig = int_grid();
+    const FV: [f64; 14] = [0.0, -0.0, 1.0, -1.0, 0.1, 6e-17, 9007199254740992.0, 9007199254740993.0, 1e308, f64::MAX, 5e-324, 1e-300, 3.0, 0.5];
+    for _ in 0..n {
+        ints.push((il(*rng.pick(&ig)), il(*rng.pick(&ig)), il(*rng.pick(&ig))));
+        floats.push((fl(*rng.pick(&FV)), fl(*rng.pick(&FV)), fl(*rng.pick(&FV))));
+    }
+    (ints, floats)
+}
+
 struct GroupRes {
     /// reference: variable/variable form, optimizer off
     reference: Canon,
@@ -720,6 +818,14 @@ fn main() {
     ];
     for (i, d) in directed.iter().enumerate() {
         programs.push((format!("directed{i}"), d.to_string()));
+    }
+    // chains of literal operands after a variable: every operator pair, in one program per triple
+    let (chain_ints, chain_floats) = chain_triples(&mut ctx.rng, quick);
+    for (i, (v, a, b)) in chain_ints.iter().enumerate() {
+        programs.push((format!("chainint{i}"), chain_bundle(false, v, a, b, &["+", "-", "*", "/", "%"])));
+    }
+    for (i, (v, a, b)) in chain_floats.iter().enumerate() {
+        programs.push((format!("chainfloat{i}"), chain_bundle(true, v, a, b, &["+", "-", "*", "/"])));
     }
 
     struct PRes {
@@ -874,6 +980,25 @@ fn main() {
     for a in &fs {
         groups.push(forms_neg(None, Some(a)));
     }
+    // chains `v op1 A op2 B` (+ a third literal for the same-operator pairs)
+    for (v, a, b) in &chain_ints {
+        let ops = ["+", "-", "*", "/", "%"];
+        for o1 in ops {
+            for o2 in ops {
+                groups.extend(forms_chain(false, v, &[a.clone(), b.clone()], &[o1, o2], ""));
+            }
+            groups.extend(forms_chain(false, v, &[a.clone(), b.clone(), a.clone()], &[o1, o1, o1], "3"));
+        }
+    }
+    for (v, a, b) in &chain_floats {
+        let ops = ["+", "-", "*", "/"];
+        for o1 in ops {
+            for o2 in ops {
+                groups.extend(forms_chain(true, v, &[a.clone(), b.clone()], &[o1, o2], ""));
+            }
+            groups.extend(forms_chain(true, v, &[a.clone(), b.clone(), a.clone()], &[o1, o1, o1], "3"));
+        }
+    }
     let res = par_map(&groups, run_group);
     for (grp, r) in groups.iter().zip(res) {
         for f in &grp.forms {
@@ -883,7 +1008,7 @@ fn main() {
         let class = r.reference.status.split(':').next().unwrap_or("").to_string();
         let mut w = grp.what.split(' ');
         let (ty, x, y) = (w.next().unwrap_or(""), w.next().unwrap_or(""), w.next().unwrap_or(""));
-        let opname = if x == "neg" { "neg" } else { y };
+        let opname = if x == "neg" || x.starts_with("chain") { x } else { y };
         ctx.count(&format!("forms-outcome:{ty}:{opname}:{class}"));
         if !r.bad.is_empty() {
             let mut srcs = String::new();
